@@ -54,10 +54,10 @@ def with_state(acs, name, st=None, cs=None):
     return out
 
 
-def gen_case(chk, MX):
+def gen_case(chk, MX, force_multi=None, force_rho=None):
     rng = chk.rng
-    multi = rng.random() < 0.25
-    sd = gen.gen_scene(rng, chk.hist, rho=rng.choice(["const", "standard"]), wind=rng.random() < 0.5, solver={"type": "nonlinear"})
+    multi = rng.random() < 0.25 if force_multi is None else force_multi
+    sd = gen.gen_scene(rng, chk.hist, rho=force_rho or rng.choice(["const", "standard"]), wind=rng.random() < 0.5, solver={"type": "nonlinear"})
     acs = []
     for k in range(2 if multi else 1):
         ac = gen.simple_wing_aircraft(N=3, b=rng.uniform(3, 5), sweep=rng.choice([None, 10.0]), reid=rng.random() < 0.5,
@@ -184,6 +184,8 @@ def check_state(chk, MX, sd, acs, name):
     rng = chk.rng
     H = MX.helpers
     steps = dict(dx=rng.choice([0.5, 5.0]), dV=rng.choice([0.5, 2.0]), de=rng.choice([0.001, 0.1, 0.1]), dw=rng.choice([0.01, 0.05]))      # also steps far from the defaults
+    if len(acs) > 1 or sd["scene"]["atmosphere"].get("rho") == "standard":
+        steps["dx"] = 40.0          # a position step over which the other aircraft / the atmosphere really change
     sc = gen.build_scene(MX, sd, acs)
     out = sc.state_derivatives(aircraft=name, **steps)[name]
     base = gen.build_scene(MX, sd, acs)
@@ -238,7 +240,12 @@ def run(chk):
     kinds = ["stability", "damping", "control", "state", "union"]
     for i in range(n):
         kind = kinds[i % len(kinds)]
-        sd, acs, frames = gen_case(chk, MX)
+        # what must not be left to chance in a short run: state derivatives where the loads depend on the position (standard atmosphere; a
+        # second aircraft), the union and its selection with two aircraft
+        rnd = i // len(kinds)
+        force_multi = True if (kind == "union" and rnd == 0) or (kind == "state" and rnd == 1) else None
+        force_rho = "standard" if (kind == "state" and rnd == 0) else None
+        sd, acs, frames = gen_case(chk, MX, force_multi=force_multi, force_rho=force_rho)
         name = rng.choice([a[0] for a in acs])
         try:
             if kind == "stability":
